@@ -78,6 +78,7 @@ func c19(c *Ctx) {
 	r.Floor("R1.error-stops", 5)
 	r.Floor("R2.version-sets", 4)
 	r.Floor("R3.helper", 4)
+	r.Floor("R1.local-versions-immutable", 1)
 
 	N := negotiationHelper(p)
 	if N == nil {
@@ -297,6 +298,66 @@ func c19(c *Ctx) {
 			}
 			r.Check(raw, "R2.version-sets", core.FuncName(f)+" raw-branch", p.Pos(f.Pos()), "other versions pass the bytes through unchanged", "the non-prefixed branch does not return its input unchanged")
 		}
+	}
+
+	// ---- R1b the local version list is immutable after construction
+	{
+		isLocal := func(v ssa.Value) bool { _, f, ok := core.LoadedField(v); return ok && f == "currentVersions" }
+		nuse := 0
+		for _, fn := range p.ModuleFuncs() {
+			if fn.Pkg != p.SSAPkg("portalwire") && (fn.Parent() == nil || fn.Parent().Pkg != p.SSAPkg("portalwire")) {
+				continue
+			}
+			// element stores
+			for _, b := range fn.Blocks {
+				for _, in := range b.Instrs {
+					if st, ok := in.(*ssa.Store); ok {
+						if ia, ok := st.Addr.(*ssa.IndexAddr); ok && core.Derives(ia.X, isLocal, core.DeriveOpts{}) {
+							r.Fail("R1.local-versions-immutable", core.FuncName(fn)+" element-store", p.Pos(st.Pos()), "an element of the local version list is overwritten")
+						}
+					}
+				}
+			}
+			core.Calls(fn, func(ci ssa.CallInstruction) {
+				for ai, a := range ci.Common().Args {
+					if !core.Derives(a, isLocal, core.DeriveOpts{}) {
+						continue
+					}
+					if _, isSlice := a.Type().Underlying().(*types.Slice); !isSlice {
+						continue
+					}
+					nuse++
+					key := fmt.Sprintf("%s passes-local-versions-to %s", core.FuncName(fn), shortID(core.CalleeID(ci)))
+					id := core.CalleeID(ci)
+					mut := strings.HasPrefix(id, "sort.") || strings.HasPrefix(id, "slices.Sort") || id == "slices.Reverse" || id == "builtin.copy" && ai == 0 || id == "builtin.clear"
+					if cf := core.StaticCalleeFn(ci); cf != nil && core.InModule(cf) && ai < len(cf.Params) {
+						pa := cf.Params[ai]
+						isP := func(v ssa.Value) bool { return v == ssa.Value(pa) }
+						for _, b := range cf.Blocks {
+							for _, in := range b.Instrs {
+								switch x := in.(type) {
+								case *ssa.Store:
+									if ia, ok := x.Addr.(*ssa.IndexAddr); ok && core.Derives(ia.X, isP, core.DeriveOpts{}) {
+										mut = true
+									}
+								case ssa.CallInstruction:
+									id2 := core.CalleeID(x)
+									if strings.HasPrefix(id2, "sort.") || strings.HasPrefix(id2, "slices.Sort") || id2 == "slices.Reverse" {
+										for _, a2 := range x.Common().Args {
+											if core.Derives(a2, isP, core.DeriveOpts{}) {
+												mut = true
+											}
+										}
+									}
+								}
+							}
+						}
+					}
+					r.Check(!mut, "R1.local-versions-immutable", key, p.Pos(ci.Pos()), "the callee only reads the local version list", "the local version list is reordered/overwritten in place by this call: its first element (the base version used for peers that advertise none) changes after the first negotiation")
+				}
+			})
+		}
+		r.Count("local_version_list_uses", nuse)
 	}
 
 	// ---- R3 the helper itself
